@@ -175,6 +175,23 @@ def check_stage(chk, c, f, xp, stage, data, drv, tol, sig, case):
             chk.fail("log-density returned with the draws = log_prob at the draws", case,
                      f"{stage}: one log_prob call on {len(big)} points: point {t} gives {lpb[t] if t >= 0 else None!r}, the same point in a small call "
                      f"{ref[t] if t >= 0 else None!r} ({int(badb.sum()) if lpb.shape == ref.shape else 'shape'} points differ)", {**sig, "clause": "batch"})
+    # (1c) log_prob is a function of the VALUES it is handed: a pre-allocated tensor that is refilled in place between calls (chunked
+    #      evaluation of a grid or of a large reweighting set through one buffer) gives the values of its current contents
+    if c["backend"] == "zuko" and len(x) >= 8:
+        half = len(x) // 2
+        buf = torch.as_tensor(np.array(x[:half]), dtype=f.dtype).clone()
+        with torch.no_grad():
+            first = ns.to_np(f.log_prob(buf)).copy()
+            buf.copy_(torch.as_tensor(np.array(x[half:2 * half]), dtype=f.dtype))
+            second = ns.to_np(f.log_prob(buf))
+        ref2 = lpx[half:2 * half]
+        okb = interior[half:2 * half]
+        chk.count("reused_buffer_points", int(okb.sum()))
+        if okb.any() and not np.all(np.abs(second - ref2)[okb] <= tol * (1 + np.abs(ref2[okb])) * 20):
+            t = int(np.argmax(np.abs(second - ref2) * okb))
+            chk.fail("log-density returned with the draws = log_prob at the draws", case,
+                     f"{stage}: a tensor refilled in place and evaluated again: point {t} gives {second[t]!r}, the same values in a fresh tensor {ref2[t]!r} "
+                     f"(first contents gave {first[t]!r})", {**sig, "clause": "buffer"})
     # (2) log_prob = base(T x) + log|J| with T and J from the model
     pts = np.vstack([data[:12], x[interior][:12]]) if interior.any() else data[:12]
     kinds = {"cls": "composite", "d": d, "lo": c["lo"], "hi": c["hi"], "bounded_kind": c["bounded"] if c["bounded"] != "off" else "logit",
